@@ -247,6 +247,36 @@ impl Report {
     }
 }
 
+/// Merge the reports of several engines serving one property: counts are summed, everything
+/// else is kept per engine.
+pub fn merge_reports(into: &mut Report, parts: Vec<(&str, Report)>) {
+    let mut engines = serde_json::Map::new();
+    let (mut states, mut transitions, mut traces) = (0u64, 0u64, 0u64);
+    let mut samples = vec![];
+    let mut exhaustive = true;
+    for (name, r) in parts {
+        states += r.coverage.get("states").and_then(|v| v.as_u64()).unwrap_or(0);
+        transitions += r.coverage.get("transitions").and_then(|v| v.as_u64()).unwrap_or(0);
+        traces += r.coverage.get("traces_validated_against_impl").and_then(|v| v.as_u64()).unwrap_or(0);
+        if let Some(Value::Array(a)) = r.coverage.get("samples") {
+            samples.extend(a.iter().take(3).cloned());
+        }
+        if r.coverage.get("exhaustive").and_then(|v| v.as_bool()) == Some(false) {
+            exhaustive = false;
+        }
+        for v in r.violations {
+            into.add_violation(v);
+        }
+        engines.insert(name.to_string(), Value::Object(r.coverage));
+    }
+    into.cov("states", json!(states));
+    into.cov("transitions", json!(transitions));
+    into.cov("traces_validated_against_impl", json!(traces));
+    into.cov("samples", Value::Array(samples));
+    into.cov("exhaustive", json!(exhaustive));
+    into.cov("engines", Value::Object(engines));
+}
+
 // ---------------------------------------------------------------------------------------
 // worker pool (sub-processes of this binary speaking JSON lines)
 // ---------------------------------------------------------------------------------------
